@@ -26,7 +26,7 @@ while read prop commit; do
   if ! (cd "$D" && go build ./... 2>/dev/null); then echo "$prop $commit DOES-NOT-BUILD ($subj)"; rm -rf "$D"; continue; fi
   tests="tests-pass"
   (cd "$D" && go test -vet=off -count=1 -timeout 900s ./... >/dev/null 2>&1) || tests="TESTS-FAIL"
-  out=$(VERIF_REPO="$D" VERIF_BUILD="$V/.build/revert-$prop" VERIF_BUDGET_S=5 ./check "$prop" quick 2>&1)
+  out=$(VERIF_RUN_TAG="-rev$$" VERIF_REPO="$D" VERIF_BUILD="$V/.build/revert-$prop" VERIF_BUDGET_S=5 ./check "$prop" quick 2>&1)
   rc=$?
   key=$(echo "$out" | grep -E "^  key=" | head -1 | cut -c1-140)
   if [ $rc -eq 1 ]; then v=CAUGHT; else v="MISSED(rc=$rc)"; fi
